@@ -87,6 +87,22 @@ func checkC09(c *Ctx) {
 				okD = false
 			}
 		}
+		if !okD {
+			// either idiom: explicit loop with return on the hit, or slices.ContainsFunc/IndexFunc
+			sameSigner := func(hit []Fact, elem string) bool {
+				for _, f := range hit {
+					if f.Op != "==" {
+						continue
+					}
+					a, b := "(hs.PartialCert).Signer("+elem+")", "(hs.PartialCert).Signer(p1)"
+					if (f.L == a && f.R == b) || (f.L == b && f.R == a) {
+						return true
+					}
+				}
+				return false
+			}
+			okD = noMatchBefore(fl, upd, func(k string) bool { return k == listK }, sameSigner) != ""
+		}
 		c.Check(okD, "C09.1/dedup", "verifyCert: one vote per signer and block", p.InstrPos(upd),
 			"every recorded vote for the block is compared with cert.Signer(); a match returns without recording",
 			"no complete duplicate-signer scan over the block's recorded votes before the update")
@@ -137,7 +153,7 @@ func checkC09(c *Ctx) {
 		var bad []string
 		pcK := fcv.K.Key(a[1])
 		for _, lf := range leaves(fcv, a[2], in) {
-			k := fcv.K.Key(lf.Val)
+			k := lf.KeyIn(fcv)
 			if !((strings.HasPrefix(k, "(*hs/security/blockchain.Blockchain).LocalGet(") || strings.HasPrefix(k, kBCGet)) && strings.Contains(k, ", "+kPCHash+pcK+"))") && strings.HasSuffix(k, "#0")) {
 				bad = append(bad, k)
 			}
@@ -224,7 +240,7 @@ func c09SingleSignerInVerifyPartial(c *Ctx) bool {
 		return false
 	}
 	for _, e := range exits {
-		if !hasCmp(fl.At(e.Ret), "==", is(kPartLen+kPCSig+"p1)))"), is("c:1")) {
+		if !hasCmp(e.Facts, "==", is(kPartLen+kPCSig+"p1)))"), is("c:1")) {
 			return false
 		}
 	}
@@ -237,27 +253,37 @@ func c09Deferral(c *Ctx, fl *Flow, cv *ssa.Function) {
 	p := c.P
 	delay := p.Func("core/eventloop", "DelayUntil")
 	okDelay, okFetch := false, false
-	eachInstr(cv, func(in ssa.Instruction) {
-		call, ok := in.(*ssa.Call)
-		if !ok || call.Call.StaticCallee() == nil {
-			return
+	// CollectVote or a helper of its package the lookup was extracted into
+	for _, hf := range helperClosure(p, cv, 2) {
+		if hf == p.Method("protocol/votingmachine", "VotingMachine", "verifyCert") {
+			continue
 		}
-		cal := call.Call.StaticCallee()
-		if cal.Origin() == delay && len(cal.TypeArgs()) == 1 && cal.TypeArgs()[0].String() == modPath+".ProposeMsg" {
-			facts := fl.AtBlockStart(in.Block())
-			if falseOf(facts, func(k string) bool {
-				return strings.HasPrefix(k, "(*hs/security/blockchain.Blockchain).LocalGet(") && strings.HasSuffix(k, "#1")
-			}) &&
-				falseOf(facts, func(k string) bool { return strings.HasSuffix(k, "hs.VoteMsg.Deferred") }) {
-				okDelay = true
+		fl := fl
+		if hf != cv {
+			fl = NewFlow(p, hf)
+		}
+		eachInstr(hf, func(in ssa.Instruction) {
+			call, ok := in.(*ssa.Call)
+			if !ok || call.Call.StaticCallee() == nil {
+				return
 			}
-		}
-		if strings.HasPrefix(fl.K.Key(call), kBCGet) {
-			if trueOf(fl.At(in), func(k string) bool { return strings.HasSuffix(k, "hs.VoteMsg.Deferred") }) {
-				okFetch = true
+			cal := call.Call.StaticCallee()
+			if cal.Origin() == delay && len(cal.TypeArgs()) == 1 && cal.TypeArgs()[0].String() == modPath+".ProposeMsg" {
+				facts := fl.AtBlockStart(in.Block())
+				if falseOf(facts, func(k string) bool {
+					return strings.HasPrefix(k, "(*hs/security/blockchain.Blockchain).LocalGet(") && strings.HasSuffix(k, "#1")
+				}) &&
+					falseOf(facts, func(k string) bool { return strings.HasSuffix(k, "hs.VoteMsg.Deferred") }) {
+					okDelay = true
+				}
 			}
-		}
-	})
+			if strings.HasPrefix(fl.K.Key(call), kBCGet) {
+				if trueOf(fl.At(in), func(k string) bool { return strings.HasSuffix(k, "hs.VoteMsg.Deferred") }) {
+					okFetch = true
+				}
+			}
+		})
+	}
 	c.Check(okDelay, "C09.5/defer", "CollectVote: first miss is deferred until the next proposal", p.FuncPos(cv),
 		"DelayUntil[ProposeMsg](vote) exactly when the vote is not yet deferred and the block is not stored locally", "no such deferral found")
 	c.Check(okFetch, "C09.5/fetch", "CollectVote: a deferred vote fetches its block", p.FuncPos(cv),
